@@ -7,3 +7,15 @@ GROUPS = [
     dict(name="hmm_vit_eval_3st_lr", harness=H, enforce="hmm_vit_eval_3st_lr", min_postconditions=12, replay=R3, allow_no_body=NB),
     dict(name="hmm_vit_eval_3st_lr_mpx", harness=H, enforce="hmm_vit_eval_3st_lr_mpx", min_postconditions=12, allow_no_body=NB),
 ]
+
+ASSUMPTIONS = [
+    "WF_HMM precondition: state scores are WORST_SCORE or in [WORST_SCORE + 2^20, 0], activity is prefix-closed, senone scores are >= 0 (negated logs), exit inactive while state 1 is",
+    "3-state topologies only (the shipped models); hmm_vit_eval_5st_lr(_mpx) and hmm_vit_eval_anytopo are not under contract",
+    "a skip arc of the 3-state code exists iff its stored cost is < 255 (TMAT_WORST_SCORE)",
+]
+HAND_LEMMAS = ["global optimality over all alignments is the standard Viterbi induction over frames from the local max-plus step; not machine checked"]
+NOT_COVERED = ["global optimum over all alignments", "fsg_search transitions (pnode_trans/word_trans/null_prop) and fsg_history_entry_add domination rule (seeded change C02_A is not detected)", "lextree / triphone construction", "5-state and any-topology evaluators"]
+CLAIM = dict(
+    text="Each Viterbi step of the 3-state HMM evaluators (hmm_vit_eval_3st_lr and its multiplex variant) is proved, for ALL int32 score vectors satisfying the HMM invariant, all senone scores and all transition bytes, to be the exact clamped max-plus step over the legal arcs: every state's new score is the maximum of its predecessors' score minus senone score minus arc cost, each weight used once, back-pointers follow an arg-max predecessor, the best score is the maximum, nothing wraps. Global optimality of the search is NOT decided (local steps only).",
+    note="local optimality steps only; preconditions WF_HMM; search transitions, history pruning, lextree and the global maximum are not covered; trusted: CBMC 6.11",
+    technique="CBMC function contract enforced with goto-instrument --dfcc, loop-free code over the full input domain; counterexamples replayed natively through a constructive harness")
